@@ -105,6 +105,8 @@ def shapes(r, tier):
             vs = list(vs)
             if all(lo <= v <= hi for v in vs):
                 add(lab, vs)
+    if bits >= 16:
+        add('holes_257_runs', range(0, 514, 2))          # more runs than a byte can count
     if bits >= 64:
         add('holes_i64_limits', [I64_MIN if s else 0, -1 if s else 1, 0 if s else 2, I64_MAX - 1, I64_MAX])
     if tier == 'thorough':
@@ -194,6 +196,13 @@ def make_decl(r, label, values, order, spelling, naming, rnd, vis='pub'):
                 nm = nm + '\''
                 renames[v] = nm
             seen.add(nm)
+    elif naming == 'idents':
+        # identifiers that are legal but unusual: leading underscore, lower case, non-ASCII, digits
+        odd = ['_u', 'lower_case', 'Über', 'X9', 'a', 'Ω', 'snake_case_name', 'CamelCaseName', '__dunder', 'Z']
+        seen = set()
+        for i, v in enumerate(vals):
+            nm = odd[i % len(odd)] + ('' if i < len(odd) else str(i))
+            names[v] = nm
     elif naming == 'dup' and n >= 3:
         renames[vals[0]] = 'same'
         renames[vals[n // 2]] = 'same'
@@ -358,6 +367,12 @@ def render_module(mod, decl, cfg, hostile=False, **kw):
     hdr = ['    #![no_implicit_prelude]', '    #![allow(dead_code, non_camel_case_types, unused_imports, unused_macros)]', '    use ::enum_tools::EnumTools;']
     if hostile:
         hdr += ['    ' + h for h in HOSTILE]
+    if decl.get('context') == 'fn':
+        # the enum is an item inside a function body
+        body = ['pub mod %s {' % mod, '    #![allow(dead_code, non_camel_case_types, unused_imports, unused_macros)]', '    pub fn inner() {', '        use ::enum_tools::EnumTools;']
+        body += ['        ' + l for l in render_enum(decl, cfg, **kw)]
+        body += ['    }', '}']
+        return body
     if 'MOD' in (decl['vis'] or ''):
         d2 = dict(decl); d2['vis'] = decl['vis'].replace('MOD', mod)
         body = ['pub mod %s {' % mod, '    pub mod inner {'] + ['    ' + h for h in hdr]
